@@ -302,8 +302,8 @@ def case_rod(dim, dtype, n_elems):
 
 
 MISMATCHES = ["missing-eul-scalar", "missing-eul-vector", "missing-lag-scalar", "missing-lag-vector", "missing-grid", "missing-grid-no-fields",
-              "origin-shift", "origin-shift-first-axis", "origin-shift-last-axis", "origin-shift-small", "dx-x2", "dx-x1.001", "grid+1", "grid+1-first-axis", "eul-scalar-vs-file-without-eulerian"]
-EULERIAN_MISMATCHES = ["missing-eul-scalar", "missing-eul-vector", "origin-shift", "origin-shift-first-axis", "origin-shift-last-axis", "origin-shift-small", "dx-x2", "dx-x1.001", "grid+1", "grid+1-first-axis"]
+              "origin-shift", "origin-shift-first-axis", "origin-shift-last-axis", "origin-shift-small", "dx-x2", "dx-x1.001", "grid+1", "grid+1-first-axis", "grid-slab-first-axis", "grid-slab-last-axis", "eul-scalar-vs-file-without-eulerian"]
+EULERIAN_MISMATCHES = ["missing-eul-scalar", "missing-eul-vector", "origin-shift", "origin-shift-first-axis", "origin-shift-last-axis", "origin-shift-small", "dx-x2", "dx-x1.001", "grid+1", "grid+1-first-axis", "grid-slab-first-axis", "grid-slab-last-axis"]
 ORIGINS = {"default": None, "per-axis": [0.125, -0.75, 2.5]}  # coordinate of the first cell centre per array axis
 
 
@@ -339,6 +339,11 @@ def case_mismatch(dim, dtype, kind, cls="IO", load_cls=None, origins="default"):
         load_spec["origin_shift"] = [0.0] * (dim - 1) + [0.25e-3]
     elif kind == "dx-x1.001":
         load_spec["dx_scale"] = 1.001
+    elif kind in ("grid-slab-first-axis", "grid-slab-last-axis"):
+        # the FILE holds a one-cell-thick slab (an axis of length 1) of the registered grid: NumPy would broadcast it
+        gsz = (5, 6) if dim == 2 else (3, 4, 5)
+        ax = 0 if kind.endswith("first-axis") else dim - 1
+        save_spec["grid_delta"] = [(1 - gsz[a]) if a == ax else 0 for a in range(dim)]
     elif kind == "grid+1-first-axis":
         load_spec["grid_delta"] = [1] + [0] * (dim - 1)
     elif kind == "dx-x2":
